@@ -16,6 +16,7 @@ use simrt::sched::{ClockPolicy, ExecPlan, ExecRecord, Strategy};
 use simrt::{Fault, FaultCfg};
 use std::collections::BTreeMap;
 use std::net::{IpAddr, Ipv4Addr};
+use std::sync::atomic::{AtomicU64, Ordering::SeqCst};
 use std::sync::Arc;
 use std::time::Duration;
 
@@ -65,6 +66,12 @@ pub struct Step {
 pub struct Scn {
     pub steps: Vec<Step>,
     pub fs_faults: Vec<(String, u16)>,
+    /// query threads run concurrently with every reload (engine E1): each answer must come
+    /// from the state before or after the reload, and from the new state once it has returned
+    #[serde(default)]
+    pub concurrent_queries: usize,
+    #[serde(default)]
+    pub strategy: String,
 }
 pub struct C31;
 
@@ -221,10 +228,12 @@ impl Prop for C31 {
         // fs_eintr_read is deliberately not injected here: the zone-file parser reports EINTR as an
         // I/O error instead of retrying (observed; see DESIGN.md), which legitimately makes a load
         // fail and would only blur the per-zone expectation. C24 exercises EINTR on the parser.
-        Scn { steps, fs_faults }
+        let concurrent_queries = if chance(r, 25) { range(r, 1, 3) as usize } else { 0 };
+        Scn { steps, fs_faults, concurrent_queries, strategy: pick(r, &["random", "random", "pct:2", "pct:3"]).to_string() }
     }
-    fn plan(r: &mut SplitMix, _s: &Scn) -> ExecPlan {
-        ExecPlan { seed: r.next(), strategy: Strategy::Random, clock: ClockPolicy::Des, max_steps: 200_000 }
+    fn plan(r: &mut SplitMix, s: &Scn) -> ExecPlan {
+        let strategy = if s.concurrent_queries > 0 { crate::parse_strategy(&s.strategy, 300) } else { Strategy::Random };
+        ExecPlan { seed: r.next(), strategy, clock: ClockPolicy::Des, max_steps: 400_000 }
     }
     fn run(scn: &Scn) {
         run(scn)
@@ -260,6 +269,11 @@ impl Prop for C31 {
             c.fs_faults.clear();
             out.push(c);
         }
+        if s.concurrent_queries > 0 {
+            let mut c = s.clone();
+            c.concurrent_queries -= 1;
+            out.push(c);
+        }
         out
     }
     fn nontrivial(s: &Scn, _r: &ExecRecord) -> bool {
@@ -273,7 +287,7 @@ impl Prop for C31 {
         h
     }
     fn rule() -> String {
-        "one execution = one history of 2-6 steps; each step edits the configuration (add/remove nested zones of a 5-zone universe incl. a CH-class zone, change a zone's path, reorder) and zone files (valid new version, syntax error, no SOA, no NS, out-of-zone record, missing, directory, EIO after k octets, torn after k octets, unchanged), sometimes breaks the configuration file itself (invalid TOML, duplicate zone, missing), then runs the SIGHUP reload body and queries every zone of the universe (marker TXT and SOA, own class); optional short reads on every file read. Non-trivial = at least one failing file or configuration; distinct = distinct scenario".into()
+        "one execution = one history of 2-6 steps; each step edits the configuration (add/remove nested zones of a 5-zone universe incl. a CH-class zone, change a zone's path, reorder) and zone files (valid new version, syntax error, no SOA, no NS, out-of-zone record, missing, directory, EIO after k octets, torn after k octets, unchanged), sometimes breaks the configuration file itself (invalid TOML, duplicate zone, missing), then runs the SIGHUP reload body and queries every zone of the universe (marker TXT and SOA, own class); optional short reads on every file read; in a quarter of the runs 1-3 query threads run concurrently with every reload under a seeded schedule (random / PCT) and each of their answers must come from the state before or after that reload, and from the new state once the reload has returned. Non-trivial = at least one failing file or configuration; distinct = distinct scenario".into()
     }
     fn assumptions() -> Vec<String> {
         vec![
@@ -289,10 +303,10 @@ impl Prop for C31 {
         vec!["file system -> simrt::fs (in-memory, harness-stamped mtimes, EIO/torn/short-read/EINTR faults)", "signal delivery and process start-up", "sockets (queries go to handle_message)"]
     }
     fn engine() -> &'static str {
-        "E3 simrt-sequential"
+        "E3 simrt-sequential (+ E1 query threads during reloads in a quarter of the runs)"
     }
     fn expected_probes() -> Vec<&'static str> {
-        vec!["c31_reload_failed_as_a_whole", "c31_zone_kept_old_data", "c31_zone_servfail", "c31_mtime_skip", "c31_zone_removed", "c31_child_failed_parent_served", "c31_path_changed"]
+        vec!["c31_reload_failed_as_a_whole", "c31_zone_kept_old_data", "c31_zone_servfail", "c31_mtime_skip", "c31_zone_removed", "c31_child_failed_parent_served", "c31_path_changed", "c31_concurrent_reload", "c31_concurrent_query_saw_old_state"]
     }
 }
 
@@ -300,7 +314,7 @@ fn query(name: &str, qtype: u16, class: u16) -> Vec<u8> {
     wire::query_full(0x3131, &wire::name(name), qtype, class, 0, None)
 }
 
-#[derive(Debug, PartialEq)]
+#[derive(Debug, PartialEq, Clone)]
 enum Obs {
     /// NOERROR with the marker text / SOA serial
     Answer(String),
@@ -341,6 +355,71 @@ fn is_suffix(zone: &str, name: &str) -> bool {
     n.len() >= z.len() && n[n.len() - z.len()..].iter().zip(&z).all(|(a, b)| a.eq_ignore_ascii_case(b))
 }
 
+/// What queries for zone `z` of the universe must see when `served` is the served state:
+/// (marker TXT, apex SOA).
+fn expected(served: &BTreeMap<usize, Served>, z: usize) -> (Obs, Obs) {
+    let (zname, class) = UNIVERSE[z];
+    let marker = format!("marker.{zname}");
+    // the entry that must answer: longest configured suffix of the same class
+    let owner = served
+        .iter()
+        .filter(|(k, _)| UNIVERSE[**k].1 == class && is_suffix(UNIVERSE[**k].0, &marker))
+        .max_by_key(|(k, _)| wire::name(UNIVERSE[**k].0).len());
+    match owner {
+        None => (Obs::Rcode(5), Obs::Rcode(5)),
+        Some((_, Served::ServFail)) => (Obs::Rcode(2), Obs::Rcode(2)),
+        Some((k, Served::Data { version, .. })) if *k == z => (Obs::Answer(format!("{zname} v{version}")), Obs::Answer(format!("serial {version}"))),
+        Some((k, Served::Data { version, .. })) => {
+            if served.get(&z).is_none() && UNIVERSE[*k].0 != zname {
+                simrt::probe("c31_child_failed_parent_served");
+            }
+            (Obs::NxDomain(*version), Obs::NxDomain(*version))
+        }
+    }
+}
+
+/// The reference model: the served state after a successful reload of `step`'s configuration.
+fn next_model(before: &BTreeMap<usize, Served>, step: &Step, files: &BTreeMap<(usize, usize), FileState>) -> BTreeMap<usize, Served> {
+    let mut served = BTreeMap::new();
+    for (z, pv) in &step.zones {
+        let prev = before.get(z).cloned();
+        let file = files.get(&(*z, *pv));
+        let keep = |prev: &Option<Served>| prev.clone().unwrap_or(Served::ServFail);
+        let new = match file {
+            None => keep(&prev),
+            Some(f) if matches!(f.kind, FileKind::Missing) => keep(&prev),
+            Some(f) => {
+                // unchanged since it was loaded from the same path: skipped, keeps the data
+                let skip = matches!(&prev, Some(Served::Data { path, mtime_s, .. }) if *path == *pv && f.mtime_s <= *mtime_s);
+                if skip {
+                    simrt::probe("c31_mtime_skip");
+                    keep(&prev)
+                } else {
+                    match loads(&f.kind) {
+                        Some(v) => Served::Data { version: v, path: *pv, mtime_s: f.mtime_s },
+                        None => keep(&prev),
+                    }
+                }
+            }
+        };
+        if let (Some(Served::Data { version, .. }), Served::Data { version: v2, .. }) = (&prev, &new) {
+            if version == v2 && file.map(|f| loads(&f.kind).is_none()).unwrap_or(true) {
+                simrt::probe("c31_zone_kept_old_data");
+            }
+        }
+        if let (Some(Served::Data { path, .. }), Served::Data { path: p2, .. }) = (&prev, &new) {
+            if path != p2 {
+                simrt::probe("c31_path_changed");
+            }
+        }
+        if new == Served::ServFail {
+            simrt::probe("c31_zone_servfail");
+        }
+        served.insert(*z, new);
+    }
+    served
+}
+
 fn run(scn: &Scn) {
     let mut faults = FaultCfg::none();
     for (k, rate) in &scn.fs_faults {
@@ -356,7 +435,7 @@ fn run(scn: &Scn) {
 
     let mut files: BTreeMap<(usize, usize), FileState> = BTreeMap::new();
     let mut served: BTreeMap<usize, Served> = BTreeMap::new();
-    let mut state: Option<(daemon::Server, Arc<zones::Catalog>)> = None;
+    let mut state: Option<(Arc<daemon::Server>, Arc<zones::Catalog>)> = None;
 
     for (si, step) in scn.steps.iter().enumerate() {
         simrt::advance(Duration::from_secs(step.advance_s.max(1)));
@@ -413,12 +492,50 @@ fn run(scn: &Scn) {
         } else {
             fs::write(cfg_path, toml.as_bytes());
         }
-        // --- (re)load ---------------------------------------------------------------------
+        // --- reference model of the state after this step (the outcome depends only on the
+        //     configuration and the files, both known before the reload runs) ------------------
+        let expect_ok = step.config_fault == 0;
+        let served_before = served.clone();
+        let served_after = if expect_ok { next_model(&served_before, step, &files) } else { served_before.clone() };
+        // --- (re)load, optionally with query threads running concurrently ---------------------
+        let reload_returned = Arc::new(AtomicU64::new(u64::MAX));
+        let mut query_threads = vec![];
+        if let (Some((server, _)), true) = (state.as_ref(), scn.concurrent_queries > 0) {
+            let before: Vec<(Obs, Obs)> = (0..UNIVERSE.len()).map(|z| expected(&served_before, z)).collect();
+            let after: Vec<(Obs, Obs)> = (0..UNIVERSE.len()).map(|z| expected(&served_after, z)).collect();
+            for t in 0..scn.concurrent_queries {
+                let (server, before, after, returned) = (server.clone(), before.clone(), after.clone(), reload_returned.clone());
+                query_threads.push(shuttle::thread::spawn(move || {
+                    for round in 0..2 {
+                        for (z, (zname, class)) in UNIVERSE.iter().enumerate() {
+                            if (z + t + round) % 2 == 1 {
+                                continue; // each thread asks about a different half per round
+                            }
+                            let invoked = simrt::stamp();
+                            let got = observe(&server, &format!("marker.{zname}"), wire::T_TXT, *class);
+                            let fresh = invoked > returned.load(SeqCst);
+                            let ok = got == after[z].0 || (!fresh && got == before[z].0);
+                            if got == before[z].0 && before[z].0 != after[z].0 {
+                                simrt::probe("c31_concurrent_query_saw_old_state");
+                            }
+                            if !ok {
+                                viol(
+                                    if fresh { "stale-answer-after-reload-returned" } else { "answer-from-neither-old-nor-new-state" },
+                                    format!("step {si}, query thread {t}: marker.{zname} TXT class {class} got {got:?}; before the reload {:?}, after it {:?}; reload had returned: {fresh}", before[z].0, after[z].0),
+                                );
+                                return;
+                            }
+                        }
+                    }
+                }));
+            }
+            simrt::probe("c31_concurrent_reload");
+        }
         let reloaded_ok = match state.take() {
             None => match config::load_from_path(cfg_path, false) {
                 Ok(c) => {
                     let catalog = Arc::new(zones::load(c.zones));
-                    state = Some((daemon::Server::new(catalog.clone()), catalog));
+                    state = Some((Arc::new(daemon::Server::new(catalog.clone())), catalog));
                     true
                 }
                 Err(_) => false,
@@ -434,57 +551,25 @@ fn run(scn: &Scn) {
                 }
             },
         };
-        let expect_ok = step.config_fault == 0;
+        reload_returned.store(simrt::stamp(), SeqCst);
+        for h in query_threads {
+            let _ = h.join();
+        }
+        if crate::util::has_violation() {
+            break;
+        }
         if reloaded_ok != expect_ok {
             viol("reload-result", format!("step {si}: reload returned ok={reloaded_ok}, expected ok={expect_ok} (config fault {})", step.config_fault));
             break;
         }
-        // --- reference model ----------------------------------------------------------------
         if reloaded_ok {
-            let before = served.clone();
-            served.clear();
-            for (z, pv) in &step.zones {
-                let prev = before.get(z).cloned();
-                let file = files.get(&(*z, *pv));
-                let keep = |prev: &Option<Served>| prev.clone().unwrap_or(Served::ServFail);
-                let new = match file {
-                    None => keep(&prev),
-                    Some(f) if matches!(f.kind, FileKind::Missing) => keep(&prev),
-                    Some(f) => {
-                        // unchanged since it was loaded from the same path: skipped, keeps the data
-                        let skip = matches!(&prev, Some(Served::Data { path, mtime_s, .. }) if *path == *pv && f.mtime_s <= *mtime_s);
-                        if skip {
-                            simrt::probe("c31_mtime_skip");
-                            keep(&prev)
-                        } else {
-                            match loads(&f.kind) {
-                                Some(v) => Served::Data { version: v, path: *pv, mtime_s: f.mtime_s },
-                                None => keep(&prev),
-                            }
-                        }
-                    }
-                };
-                if let (Some(Served::Data { version, .. }), Served::Data { version: v2, .. }) = (&prev, &new) {
-                    if version == v2 && file.map(|f| loads(&f.kind).is_none()).unwrap_or(true) {
-                        simrt::probe("c31_zone_kept_old_data");
-                    }
-                }
-                if let (Some(Served::Data { path, .. }), Served::Data { path: p2, .. }) = (&prev, &new) {
-                    if path != p2 {
-                        simrt::probe("c31_path_changed");
-                    }
-                }
-                if new == Served::ServFail {
-                    simrt::probe("c31_zone_servfail");
-                }
-                served.insert(*z, new);
-            }
-            if before.keys().any(|z| !served.contains_key(z)) {
+            if served_before.keys().any(|z| !served_after.contains_key(z)) {
                 simrt::probe("c31_zone_removed");
             }
         } else {
             simrt::probe("c31_reload_failed_as_a_whole");
         }
+        served = served_after;
         // --- observe every zone of the universe -----------------------------------------------
         let Some((server, _)) = state.as_ref() else {
             // the initial configuration could not be loaded: the daemon would not have started
@@ -492,23 +577,7 @@ fn run(scn: &Scn) {
         };
         for (z, (zname, class)) in UNIVERSE.iter().enumerate() {
             let marker = format!("marker.{zname}");
-            // the entry that must answer: longest configured suffix of the same class
-            let owner = served
-                .iter()
-                .filter(|(k, _)| UNIVERSE[**k].1 == *class && is_suffix(UNIVERSE[**k].0, &marker))
-                .max_by_key(|(k, _)| wire::name(UNIVERSE[**k].0).len());
-            let (exp_txt, exp_soa) = match owner {
-                None => (Obs::Rcode(5), Obs::Rcode(5)),
-                Some((_, Served::ServFail)) => (Obs::Rcode(2), Obs::Rcode(2)),
-                Some((k, Served::Data { version, .. })) if *k == z => (Obs::Answer(format!("{zname} v{version}")), Obs::Answer(format!("serial {version}"))),
-                Some((k, Served::Data { version, .. })) => {
-                    if matches!(served.get(&z), None) && UNIVERSE[*k].0 != *zname {
-                        simrt::probe("c31_child_failed_parent_served");
-                    }
-                    (Obs::NxDomain(*version), Obs::NxDomain(*version))
-                }
-            };
-            // SOA of the zone name itself: owned by the same entry unless the name *is* an ancestor's own name
+            let (exp_txt, exp_soa) = expected(&served, z);
             let got_txt = observe(server, &marker, wire::T_TXT, *class);
             if got_txt != exp_txt {
                 viol(
